@@ -241,6 +241,7 @@ def configs(tier):
         # the same actions as fields of a real register (bus-side view), signed and unsigned, negative inits
         for sh, init in (("u2", 1), ("s2", 2), ("s3", 5), ("enum2", 3), ("u3", 0)) + ((("s8", 0x80), ("u8", 0x5A)) if tier == "thorough" else (("s5", 0x11),)):
             out.append(dict(action=a, shape=sh, init=init, inreg=True))
+        out.append(dict(action=a, shape="s3", init=5, inreg=True, elab_twice=True))   # the register elaborated twice
     for a in ("R", "W", "ResRAW0", "ResRAWL", "ResR0WA", "ResR0W0"):
         for sh in ["u1", "u3", "s2", "enum2", "u0"] + (["flag3", "struct3"] if tier == "thorough" else []):
             out.append(dict(action=a, shape=sh))
